@@ -161,7 +161,7 @@ impl Prop for C10 {
     fn enumerated(ctx: &Ctx) -> Vec<Case> {
         // long silences: a blocking receive must outlast them whatever the receiver's origin
         // (time-outs left armed on a descriptor are typically whole seconds)
-        let idle_ms = if ctx.thorough { 11_000 } else { 1_300 };
+        let idle_ms = if ctx.thorough { 31_000 } else { 10_700 };
         let mut v = vec![];
         for origin in 0..3u8 {
             for bytes in [false, true] {
@@ -379,7 +379,7 @@ fn run(case: &Case) -> Result<Outcome, Failure> {
                 },
                 (Rx::T(r), Op::TryRecv) | (Rx::T(r), Op::Timeout(_)) => {
                     let q = match &op2 {
-                        Op::Timeout(ns) => r.try_recv_timeout(Duration::from_nanos(*ns)),
+                        Op::Timeout(ns) => r.try_recv_timeout(if *ns == u64::MAX { Duration::MAX } else { Duration::from_nanos(*ns) }),
                         _ => r.try_recv(),
                     };
                     match q {
